@@ -84,7 +84,7 @@ func (c *Collector) Case(nontrivial bool, key string, sample func() any) {
 	}
 	c.nontriv[k] = struct{}{}
 	if len(c.samples) < c.maxSamples && sample != nil {
-		c.samples = append(c.samples, sample())
+		c.samples = append(c.samples, compact(sample()))
 	}
 }
 
@@ -180,4 +180,59 @@ func WriteReplay(f Failure) string {
 	_ = os.WriteFile(path, b, 0o644)
 	fmt.Printf("\nVERIF-FAIL property=%s signature=%s replay=%s\n", f.Property, f.Signature, path)
 	return path
+}
+
+// compact keeps a sample readable and the evidence file small: long strings are cut to
+// their first 300 bytes (with their length), long lists to their first 40 elements. Replay
+// files keep the complete case; samples only illustrate what was generated.
+func compact(v any) any {
+	b, err := json.Marshal(v)
+	if err != nil {
+		return fmt.Sprintf("unencodable sample: %v", err)
+	}
+	if len(b) <= 2000 {
+		return v
+	}
+	var g any
+	if err := json.Unmarshal(b, &g); err != nil {
+		return fmt.Sprintf("sample of %d bytes", len(b))
+	}
+	return compactValue(g, 0)
+}
+
+func compactValue(v any, depth int) any {
+	switch x := v.(type) {
+	case string:
+		if len(x) > 300 {
+			cut := 300
+			for cut > 0 && cut < len(x) && (x[cut]&0xc0) == 0x80 {
+				cut--
+			}
+			return fmt.Sprintf("%s... (%d bytes)", x[:cut], len(x))
+		}
+		return x
+	case []any:
+		n := len(x)
+		lim := 40
+		if depth > 1 {
+			lim = 12
+		}
+		out := make([]any, 0, lim+1)
+		for i, e := range x {
+			if i >= lim {
+				out = append(out, fmt.Sprintf("... (%d elements in all)", n))
+				break
+			}
+			out = append(out, compactValue(e, depth+1))
+		}
+		return out
+	case map[string]any:
+		out := make(map[string]any, len(x))
+		for k, e := range x {
+			out[k] = compactValue(e, depth+1)
+		}
+		return out
+	default:
+		return v
+	}
 }
